@@ -293,3 +293,53 @@ contract(FB, "RuleDBBase.has_specification", props=["C05"],
          modifies=["self._pruned_dict", "all:Obj('EquivalenceDB')", "all:Dict(Int, Int)", "all:Set(Int)",
                    "all:DefaultDict(Int, Set(Int))", "all:Set(Seq(Int))", "all:DefaultDict(Int, Set(Seq(Int)))"],
          notes="a specification exists iff the representative of the start label survives in the pruned dictionary")
+
+# ------------------------------------------------------------------ C05/C02: which root the tree finders and the extractor get
+# Finders search in the pruned dictionary from the REPRESENTATIVE of the start label, looked up after pruned_dict brought the
+# equivalences up to date (cf. D4, D12); the rule extractor is rooted at the START LABEL itself (cf. D5).
+FTS = "comb_spec_searcher/tree_searcher.py"
+_Node = Obj("Node")      # class declared in contracts/bijection.py (tree_searcher.Node)
+Float_ = Opaque("Float")
+for _fn, _extra in (("iterative_proof_tree_finder", {}), ("smallish_random_proof_tree", {"minimization_time_limit": Float_})):
+    contract(FTS, _fn, props=["C05"], verify=False,
+             trusted_reason="tree search in the pruned dictionary (bounded stand-in c05: exhaustive small dictionaries)",
+             params=dict({"rules_dict": RulesDict, "root": Int}, **_extra), returns=_Node, modifies=[])
+contract(FTS, "proof_tree_generator_dfs", props=["C05"], verify=False,
+         trusted_reason="depth-first generator of proof trees (bounded stand-in c05)",
+         params={"rules_dict": RulesDict, "root": Int, "maximum": Opt(Int)}, returns=Seq(_Node), yields=["True"], modifies=[])
+_ROOT_OK = ["same(rules_dict, val(self._pruned_dict))", "root == self.equivdb.rep[root_label_of(self)]",
+            'called_after("EquivalenceDB.__getitem__", "RuleDBBase.pruned_dict")']
+_NODE_MODS = ["self._pruned_dict", "all:Obj('EquivalenceDB')", "all:Dict(Int, Int)", "all:Set(Int)",
+              "all:DefaultDict(Int, Set(Int))", "all:Set(Seq(Int))", "all:DefaultDict(Int, Set(Seq(Int)))"]
+contract(FB, "RuleDBBase._get_iterative_node", props=["C05"], aliases=AL,
+         params={"self": Obj("RuleDBBase")}, returns=_Node, requires=["wf(self.equivdb)"],
+         raises=[("InvalidOperationError", "not iterative_of(self)")],
+         call_requires={"iterative_proof_tree_finder": _ROOT_OK}, ensures=["wf(self.equivdb)"], modifies=_NODE_MODS)
+contract(FB, "RuleDBBase._get_smallish_node", props=["C05"], aliases=AL, lenient=True,
+         params={"self": Obj("RuleDBBase"), "minimization_time_limit": Float_}, returns=_Node, requires=["wf(self.equivdb)"],
+         raises=[("InvalidOperationError", "iterative_of(self)")],
+         call_requires={"smallish_random_proof_tree": _ROOT_OK}, ensures=["wf(self.equivdb)"], modifies=_NODE_MODS)
+contract(FB, "RuleDBBase._get_smallest_node", props=["C05"], aliases=AL, lenient=True,
+         params={"self": Obj("RuleDBBase"), "minimization_time_limit": Float_}, returns=_Node, requires=["wf(self.equivdb)"],
+         raises=[("InvalidOperationError", "iterative_of(self)")],
+         call_requires={"proof_tree_generator_dfs": _ROOT_OK},
+         loops={0: dict(invariant=["wf(self.equivdb)"], modifies=_NODE_MODS)},
+         ensures=["wf(self.equivdb)"], modifies=_NODE_MODS)
+contract(FB, "RuleDBBase._get_specification_node", props=["C05"], aliases=AL, lenient=True,
+         params={"self": Obj("RuleDBBase"), "minimization_time_limit": Float_, "smallest": Bool}, returns=_Node,
+         requires=["wf(self.equivdb)"],
+         raises=[("InvalidOperationError", "iterative_of(self) and smallest")],
+         ensures=["wf(self.equivdb)",
+                  # the finder matches the pack's mode and the caller's wish
+                  "implies(iterative_of(self), called_after('RuleDBBase._get_iterative_node', 'RuleDBBase._get_smallish_node'))"],
+         modifies=_NODE_MODS)
+contract(FB, "RuleDBBase.get_specification_rules", props=["C05", "C02"], aliases=AL, lenient=True,
+         params={"self": Obj("RuleDBBase"), "minimization_time_limit": Float_, "smallest": Bool},
+         returns=Opaque("RuleIter"), requires=["wf(self.equivdb)"],
+         may_raise=["InvalidOperationError", "AssertionError", "KeyError"],
+         call_requires={"SpecificationRuleExtractor.__init__": [
+             "root_label == root_label_of(caller_self)", "same(ruledb, caller_self)",
+             'same(root_node, last_result("RuleDBBase._get_specification_node"))']},
+         modifies=_NODE_MODS + ["all:Obj('SpecificationRuleExtractor')"])
+contract(FTS, "Node.__len__", props=["C05"], verify=False, trusted_reason="number of nodes of a proof tree (recursive structure)",
+         params={"self": _Node}, returns=Int, ensures=["result >= 1"], modifies=[])
